@@ -9,6 +9,7 @@ import (
 	"github.com/golang/snappy"
 	"github.com/metrico/qryn/writer/ch_wrapper"
 	custom_errors "github.com/metrico/qryn/writer/utils/errors"
+	"github.com/metrico/qryn/writer/utils/helpers"
 	"io"
 	"net/http"
 	"strconv"
@@ -183,10 +184,10 @@ var WithOverallContextMiddleware = WithPreRequest(func(w http.ResponseWriter, r 
 		if err != nil {
 			return err
 		}
-		r.Body = readColser{reader}
+		r.Body = readColser{helpers.LimitDecoded(reader)}
 	case "snappy":
 		reader := snappy.NewReader(r.Body)
-		r.Body = readColser{reader}
+		r.Body = readColser{helpers.LimitDecoded(reader)}
 		// Handle snappy encoding if needed
 		break
 	default:
